@@ -2,9 +2,9 @@ SPECIFICATION Spec
 CONSTANT NAtoms = 3
 CONSTANT MTypes = {"C", "P", "X"}
 CONSTANT MOccs = {100, 0, 101}
-CONSTANT MGaps = {100}
+CONSTANT MGaps = {100, 150}
 CONSTANT MNuc1 = {TRUE}
-CONSTANT MLastFixed = FALSE
+CONSTANT MLastFixed = TRUE
 CONSTANT MMidRes = {1, 2}
 CONSTANT OccDefault = "none_only"
 CONSTANT ChainFoldReads = "chain_map"
